@@ -814,7 +814,7 @@ class SqlalchemyRender:
 
             sql_query = str(ast_query)
             if self.dialect.name == 'postgresql':
-                sql_query = sql_query.replace('`', '')
+                sql_query = strip_backticks(sql_query)
             return sql_query, None
 
 
@@ -824,6 +824,32 @@ def quote_literal(value, dialect):
     if getattr(dialect, 'name', None) == 'mysql':
         value = value.replace('\\', '\\\\')
     return "'{}'".format(value)
+
+
+def strip_backticks(sql):
+    """remove back-tick identifier quotes, keep back-ticks that are inside '...' literals"""
+    out = []
+    in_string = False
+    in_ident = False
+    i = 0
+    while i < len(sql):
+        ch = sql[i]
+        if in_string:
+            out.append(ch)
+            if ch == '\\' and i + 1 < len(sql):
+                i += 1
+                out.append(sql[i])
+            elif ch == "'":
+                in_string = False
+        elif ch == '`':
+            in_ident = not in_ident
+        elif ch == "'" and not in_ident:
+            in_string = True
+            out.append(ch)
+        else:
+            out.append(ch)
+        i += 1
+    return ''.join(out)
 
 
 def render_dml_query(statement, dialect):
